@@ -216,8 +216,22 @@ def r_narrow_prefix(F, S):
         eng = Engine(F, S)
         eng.analyze(fn, frozenset())
         casts = [nd for nd in fn.nodes if nd["k"] == "CXXStaticCastExpr" and nd.get("iw") == targs[0]["iw"]]
+        outer = fn
+        helper_call = None
+        if not casts:
+            # the refusal and the cast may live in a conversion helper the prefix is obtained from
+            w0 = sorted([nd for nd in fn.nodes if nd["k"] in CALLS and nd.get("fname") == "Write"], key=lambda x: x["id"])
+            if w0 and w0[0].get("args"):
+                a0 = fn.n(fn.strip(w0[0]["args"][0]))
+                hs = [h for h in (F.callees(a0) if a0["k"] in CALLS else []) if h.cfg and len(h.params) == 1]
+                if len(hs) == 1 and fn.term(a0["args"][0]) == ("size", ("var", fn.params[0]["n"], fn.params[0]["d"])):
+                    helper_call = a0
+                    fn = hs[0]
+                    eng = Engine(F, S)
+                    eng.analyze(fn, frozenset())
+                    casts = [nd for nd in fn.nodes if nd["k"] == "CXXStaticCastExpr" and nd.get("iw") == targs[0]["iw"]]
         if len(casts) != 1:
-            raise AnalysisBroken("Writer::Write<SizeType>: expected exactly one static_cast<SizeType> in %s" % fn.key)
+            raise AnalysisBroken("Writer::Write<SizeType>: expected exactly one static_cast<SizeType> in %s (or in the helper the prefix comes from)" % outer.key)
         cst = casts[0]
         src = fn.kids(cst["id"])[0]
         W = Width(fn)
@@ -225,7 +239,7 @@ def r_narrow_prefix(F, S):
         tmax = (1 << (iw - (1 if sg else 0))) - 1
         site = final_site_facts(eng, fn, cst["id"]) or set()
         v = fn.term(src)
-        inst = "%s#prefix-cast" % fn.key
+        inst = "%s#prefix-cast" % outer.key
         req = "container size > %d is refused before static_cast<%s>" % (tmax, targs[0].get("ct"))
         need = W.needed(src)
         if (1 << need) - 1 <= tmax:
@@ -236,10 +250,23 @@ def r_narrow_prefix(F, S):
             out.append(bad("R-NARROW", inst, fn.loc(cst["id"]), fn.qn, req,
                            "no dominating bound on %s; facts: %s" % (fmt_term(v), "; ".join(sorted(fmt_fact(f) for f in site if f[0] not in ("ev", "called"))) or "none")))
         # the prefix written is that cast and the container follows
+        if helper_call is not None:
+            # the helper returns the cast value on its only returning path
+            from ..rules_sib import returns as _returns
+            rs = _returns(fn)
+            ret_ok = len(rs) == 1 and fn.term(rs[0]["value"]) == fn.term(cst["id"])
+            cst_term = outer.term(helper_call["id"])
+            fn = outer
+            if not ret_ok:
+                out.append(bad("R-SEQ", "%s#prefix-then-data" % fn.key, fn.loc(fn.body), fn.qn,
+                               "prefix (cast size) is written, then the container", "the conversion helper does not return the checked cast"))
+                continue
+        else:
+            cst_term = fn.term(cst["id"])
         writes = [nd for nd in fn.nodes if nd["k"] in CALLS and nd.get("fname") == "Write"]
         pv = ("var", fn.params[0]["n"], fn.params[0]["d"])
         shape = len(writes) == 2 and fn.strip(writes[0]["args"][0], casts=False) is not None and \
-            fn.term(writes[0]["args"][0]) == fn.term(cst["id"]) and fn.term(writes[1]["args"][0]) == pv and \
+            fn.term(writes[0]["args"][0]) == cst_term and fn.term(writes[1]["args"][0]) == pv and \
             writes[0]["id"] < writes[1]["id"] or (len(writes) == 2 and fn.term(writes[1]["args"][0]) == pv)
         if shape:
             out.append(ok("R-SEQ", "%s#prefix-then-data" % fn.key, fn.loc(writes[0]["id"]), fn.qn,
@@ -346,20 +373,35 @@ def typed_lengths(F, S):
 
 
 def resize_fill(F, S):
+    """Every seek of the growing writer ends in a resize of the buffer with an explicit 0 fill value: directly, or by
+    delegating to a sibling seek that does."""
     out = []
     n = 0
+    direct = {}
     for name in ("SeekForward", "SeekBackward", "Seek"):
         fn = F.fn(DW + "::" + name, nparams=1)
-        rs = [nd for nd in fn.nodes if nd["k"] == "CXXMemberCallExpr" and nd.get("fname") == "resize"]
-        if len(rs) != 1:
-            raise AnalysisBroken("expected one resize in %s" % fn.qn)
-        n += 1
-        a = rs[0].get("args", [])
+        rs = [nd for nd in fn.nodes if nd["k"] == "CXXMemberCallExpr" and nd.get("fname") == "resize"
+              and "obj" in nd and fn.term(nd["obj"]) == ("mem", ("this",), "streamBuffer")]
+        direct[name] = (fn, rs)
+    for name, (fn, rs) in direct.items():
         inst = "%s#zero-fill" % fn.qn
-        if len(a) == 2 and fn.term(a[1]) == ("const", 0) and fn.term(rs[0]["obj"]) == ("mem", ("this",), "streamBuffer"):
-            out.append(ok("R-INIT", inst, fn.loc(rs[0]["id"]), fn.qn, "the gap opened by a seek is filled with an explicit 0", "resize(n, 0)", nontrivial=False))
+        req = "the gap opened by a seek is filled with an explicit 0"
+        if rs:
+            for r in rs:
+                n += 1
+                a = r.get("args", [])
+                if len(a) == 2 and fn.term(a[1]) == ("const", 0):
+                    out.append(ok("R-INIT", inst, fn.loc(r["id"]), fn.qn, req, "resize(n, 0)", nontrivial=False))
+                else:
+                    out.append(bad("R-INIT", inst, fn.loc(r["id"]), fn.qn, req, "resize without the 0 fill argument"))
+            continue
+        # no resize of its own: must hand the new size to a sibling seek that resizes
+        sib = [nd for nd in fn.nodes if nd["k"] == "CXXMemberCallExpr" and nd.get("fname") in direct and nd.get("fname") != name
+               and fn.term(nd["obj"]) == ("this",) and direct[nd["fname"]][1]]
+        if len(sib) == 1:
+            out.append(ok("R-INIT", inst, fn.loc(sib[0]["id"]), fn.qn, req, "delegates to %s, which resizes with the 0 fill" % sib[0]["fname"], nontrivial=False))
         else:
-            out.append(bad("R-INIT", inst, fn.loc(rs[0]["id"]), fn.qn, "the gap opened by a seek is filled with an explicit 0", "resize without the 0 fill argument"))
+            raise AnalysisBroken("%s neither resizes streamBuffer nor delegates to a sibling seek" % fn.qn)
     return out, n
 
 
